@@ -33,6 +33,12 @@ pub enum Reply {
 #[async_trait]
 pub trait Backend: std::fmt::Debug + Send + Sync + 'static {
     async fn call(&self, op: Op) -> Result<Reply>;
+
+    /// The wall clock (seconds since the epoch) that Conserve records in band heads and
+    /// tails. `None`: the real clock.
+    fn now_second(&self) -> Option<i64> {
+        None
+    }
 }
 
 #[derive(Debug)]
@@ -60,6 +66,9 @@ fn bad_reply<T>() -> Result<T> {
 
 #[async_trait]
 impl Protocol for HookProtocol {
+    fn verif_now_second(&self) -> Option<i64> {
+        self.backend.now_second()
+    }
     async fn read(&self, path: &str) -> Result<Bytes> {
         match self.backend.call(Op::Read { path: self.full(path) }).await? {
             Reply::Bytes(b) => Ok(b),
@@ -106,6 +115,11 @@ impl Protocol for HookProtocol {
 }
 
 impl Transport {
+    /// The clock of the harness behind this transport, if any.
+    pub(crate) fn verif_now_second(&self) -> Option<i64> {
+        self.protocol.verif_now_second()
+    }
+
     /// A transport whose every storage operation is served by `backend`.
     pub fn verif_with_backend(backend: Arc<dyn Backend>) -> Transport {
         Transport::from_protocol(Arc::new(HookProtocol {
